@@ -17,12 +17,12 @@ pub fn run(ctx: &Ctx) -> i32 {
     let mut atts: Vec<Att> = vec![]; for (i, _) in payloads.iter().enumerate() { for v in vendors { for c in conf { atts.push((i, v, c)) } } }
     let att_env: Vec<Envelope> = atts.iter().map(|(pi, v, c)| Envelope::new_attachment(payloads[*pi].clone(), v, *c)).collect();
     let bases: Vec<Envelope> = families::plain(3).iter().map(|m| bind::build(m, 0)).collect();
-    let maxn = if th { 3 } else { 2 };
+    let maxn = 3;
     // multisets as sequences (every order, with repetition); thorough length 3 over a reduced attachment pool
     let mut seqs: Vec<Vec<usize>> = vec![vec![]];
     seqs.extend(sequences(atts.len(), 1)); seqs.extend(sequences(atts.len(), 2));
-    if maxn >= 3 { let sub: Vec<usize> = vec![0, 1, 2, 5, 7, 13, 26, 29]; for s in sequences(sub.len(), 3) { seqs.push(s.iter().map(|i| sub[*i]).collect()) } }
-    let nbases = if th { bases.len() } else { 6 };
+    if maxn >= 3 { let sub: Vec<usize> = if th { (0..atts.len()).step_by(2).collect() } else { vec![0, 1, 2, 5, 7, 13, 26, 29] }; for s in sequences(sub.len(), 3) { seqs.push(s.iter().map(|i| sub[*i]).collect()) } }
+    let nbases = bases.len();
     let acc = (0..nbases).into_par_iter().with_max_len(1).map(|bi| {
         let mut acc = Acc::new();
         let base = &bases[bi];
